@@ -32,7 +32,7 @@ RULE = (
     "stream of 6 bytes (transport layers) / 3 line packets (endpoint layers) delivered in 1..3 writes (quick: all <= 2 cuts; "
     "thorough: all <= 3 cuts) + EOF; receive layers {recv(2), recv(64), recv_into(2), recv_into(64), AsyncStreamEndpoint copying, "
     "buffered}; cancellers {task.cancel() placed at a select boundary, canceller task woken at a select boundary (cancel runs before "
-    "that iteration's I/O callbacks), move_on_after(1.0), timeout(1.0)}; every peer write / cancel is placed at every loop-iteration "
+    "that iteration's I/O callbacks), move_on_after(1.0), timeout(1.0), the handler's yielded timeout (request receivers)}; every peer write / cancel is placed at every loop-iteration "
     "boundary: idle placements free, placements while the loop is busy are costed deviations (bound 3 quick / 4 thorough), plus the "
     "explicit 'coincide' of a write with the scope deadline; blocking StreamEndpoint.recv_packet(timeout) with arrival instants "
     "before/at-gap/after the deadline; distinct_nontrivial = distinct (layer, canceller, schedule shape, outcome) observations "
@@ -41,15 +41,15 @@ RULE = (
 ASSUMPTIONS = [
     "after receive #1 ended (result, cancellation or timeout) the same transport/endpoint is read by another task until end-of-stream",
     "timed peer writes never coincide with the deadline except through the explicit 'coincide' choice",
-    "TLS-over-adapter and the server request receiver reuse the same StreamReaderBufferedProtocol paths (recv / recv_into) checked here",
+    "TLS over the adapter reuses the same StreamReaderBufferedProtocol paths (recv / recv_into) checked here",
 ]
 BOUNDS = {"quick": "<= 2 cuts, busy-placement bound 3", "thorough": "<= 3 cuts, busy-placement bound 4"}
 
 STREAM = b"abcdef"
 PACKETS = ["ab", "cd", "ef"]
 PSTREAM = b"ab\ncd\nef\n"
-LAYERS = ("recv2", "recv64", "into2", "into64", "ep-copy", "ep-buf")
-CANCELLERS = ("task_cancel", "canceller_task", "move_on_after", "timeout")
+LAYERS = ("recv2", "recv64", "into2", "into64", "ep-copy", "ep-buf", "srv-copy", "srv-buf")
+CANCELLERS = ("task_cancel", "canceller_task", "move_on_after", "timeout", "yielded_timeout")
 
 
 def cuts_for(n: int, tier: str) -> list[tuple[int, ...]]:
@@ -63,7 +63,7 @@ def cuts_for(n: int, tier: str) -> list[tuple[int, ...]]:
 
 def run_async(ctx: Ctx, cfg: dict) -> dict:
     layer, kind = cfg["layer"], cfg["canceller"]
-    is_ep = layer.startswith("ep")
+    is_ep = layer.startswith(("ep", "srv"))
     stream = PSTREAM if is_ep else STREAM
     bounds = [0] + list(cfg["cuts"]) + [len(stream)]
     pieces = [stream[a:b] for a, b in zip(bounds, bounds[1:])]
@@ -95,7 +95,7 @@ def run_async(ctx: Ctx, cfg: dict) -> dict:
             if st["wake"] is not None and not st["wake"].done():
                 st["wake"].set_result(None)
         chains.append(Chain("cancel", [("Cw", wake)]))
-    placer = Placer(ctx, chains, coincide=kind in ("move_on_after", "timeout"), gate=lambda: st["ready"], max_busy_points=cfg.get("max_busy", 40))
+    placer = Placer(ctx, chains, coincide=kind in ("move_on_after", "timeout", "yielded_timeout"), gate=lambda: st["ready"], max_busy_points=cfg.get("max_busy", 40))
     placer.install(world)
     got: list[Any] = []
     info: dict[str, Any] = {"first": None}
@@ -107,11 +107,32 @@ def run_async(ctx: Ctx, cfg: dict) -> dict:
             obj: Any = AsyncStreamEndpoint(tr, StreamProtocol(StringLineSerializer()), max_recv_size=64)
         elif layer == "ep-buf":
             obj = AsyncStreamEndpoint(tr, BufferedStreamProtocol(StringLineSerializer(limit=32)), max_recv_size=64)
+        elif layer in ("srv-copy", "srv-buf"):
+            # the low-level stream server's request receiver (what runs between two yields of a request handler)
+            from easynetwork.lowlevel._asyncgen import SendAction
+            from easynetwork.lowlevel._stream import BufferedStreamDataConsumer, StreamDataConsumer
+            from easynetwork.lowlevel.api_async.servers.stream import _BufferedRequestReceiver, _RequestReceiver
+
+            if layer == "srv-copy":
+                obj = _RequestReceiver(transport=tr, consumer=StreamDataConsumer(StreamProtocol(StringLineSerializer())), max_recv_size=64, disconnect_error_filter=None)
+            else:
+                obj = _BufferedRequestReceiver(transport=tr, consumer=BufferedStreamDataConsumer(BufferedStreamProtocol(StringLineSerializer(limit=32)), 64), disconnect_error_filter=None)
         else:
             obj = tr
         size = 2 if layer.endswith("2") else 64
 
+        async def srv_next(timeout: float | None) -> Any:
+            try:
+                act = await obj.next(timeout)
+            except StopAsyncIteration:
+                return None
+            if isinstance(act, SendAction):
+                return act.value
+            raise act.exception
+
         async def recv_once() -> Any:
+            if layer.startswith("srv"):
+                return await srv_next(None)
             if is_ep:
                 try:
                     return await obj.recv_packet()
@@ -135,6 +156,13 @@ def run_async(ctx: Ctx, cfg: dict) -> dict:
                     with backend.timeout(1.0):
                         r = await recv_once()
                         got.append(r)
+                    info["first"] = "completed"
+                except TimeoutError:
+                    info["first"] = "cancelled"
+            elif kind == "yielded_timeout":
+                try:
+                    r = await srv_next(1.0)
+                    got.append(r)
                     info["first"] = "completed"
                 except TimeoutError:
                     info["first"] = "cancelled"
@@ -193,8 +221,10 @@ def oracle_async(obs: dict) -> str | None:
 def jobs(tier: str) -> list[dict]:
     out: list[dict] = []
     for layer in LAYERS:
-        n = len(PSTREAM) if layer.startswith("ep") else len(STREAM)
+        n = len(PSTREAM) if layer.startswith(("ep", "srv")) else len(STREAM)
         for kind in CANCELLERS:
+            if (kind == "yielded_timeout") != layer.startswith("srv") and not (layer.startswith("srv") and kind in ("task_cancel", "canceller_task")):
+                continue
             cs = cuts_for(n, tier)
             parts = 4 if tier == "quick" else 16
             for part in range(parts):
@@ -206,7 +236,7 @@ def jobs(tier: str) -> list[dict]:
 
 def run_async_job(job: dict, res: JobResult) -> None:
     layer, kind = job["layer"], job["canceller"]
-    n = len(PSTREAM) if layer.startswith("ep") else len(STREAM)
+    n = len(PSTREAM) if layer.startswith(("ep", "srv")) else len(STREAM)
     bound = 3 if job["tier"] == "quick" else 4
     for i, cuts in enumerate(cuts_for(n, job["tier"])):
         if i % job["parts"] != job["part"]:
@@ -231,7 +261,7 @@ def run_async_job(job: dict, res: JobResult) -> None:
         if stats["cap_hit"]:
             res.caps.append(f"max_runs hit for {cfg}")
         for bad, (ctx, obs) in found.items():
-            fam = "external-buffer" if layer in ("into2", "into64", "ep-buf") else "copying"
+            fam = "external-buffer" if layer in ("into2", "into64", "ep-buf", "srv-buf") else "copying"
             res.violations.append(Violation(
                 f"async/{fam}/{kind}/{bad}",
                 f"layer={layer} canceller={kind} writes={[len(x) for x in _pieces(cfg)]}: receives after the cancelled receive #1 returned "
@@ -243,7 +273,7 @@ def run_async_job(job: dict, res: JobResult) -> None:
 
 
 def _pieces(cfg: dict) -> list[bytes]:
-    stream = PSTREAM if cfg["layer"].startswith("ep") else STREAM
+    stream = PSTREAM if cfg["layer"].startswith(("ep", "srv")) else STREAM
     b = [0] + list(cfg["cuts"]) + [len(stream)]
     return [stream[x:y] for x, y in zip(b, b[1:])]
 
